@@ -2466,6 +2466,8 @@ int bufr_is_descriptor( int desc )
    {
    int f, y;
 
+   if (desc < 0) return 0;
+
    f = DESC_TO_F( desc );
    switch( f )
       {
